@@ -1,7 +1,8 @@
 /* C20 unit prelude: compiled once by chibicc (PFX=cc_) and once by gcc -O0 (PFX=ref_).
  * Operands live in file-scope slots (argument passing is C06's business).  Slots [0],[1] are assignment targets,
  * slots [2],[3] are read-only operands (so divisors / shift counts never change); [0],[1],[4],[5] are the lvalue
- * objects of the composite nodes with pre-order index 0..3 (no object is modified twice in one expression). */
+ * objects of the composite nodes with pre-order index 0..3 (no object is modified twice in one expression).
+ * Slots [6] (zero / null) and [7] (non-zero) are the condition operands of typed ?: expressions: `g?[6 + gc]`. */
 typedef struct S { long a; int b; int c; } S;          /* 16 bytes: returned in rax:rdx */
 typedef struct L { long a[3]; } L;                     /* 24 bytes: memory class, odd number of stack slots */
 struct B { int x : 5; int y : 7; long z : 20; };
@@ -62,8 +63,43 @@ struct B { int x : 5; int y : 7; long z : 20; };
 #define k8 FN(k8)
 #define k9d FN(k9d)
 #define k7e FN(k7e)
+#define cvb FN(cvb)
+#define crb FN(crb)
+#define cvc FN(cvc)
+#define crc FN(crc)
+#define cvsc FN(cvsc)
+#define crsc FN(crsc)
+#define cvuc FN(cvuc)
+#define cruc FN(cruc)
+#define cvs FN(cvs)
+#define crs FN(crs)
+#define cvus FN(cvus)
+#define crus FN(crus)
+#define cvi FN(cvi)
+#define cri FN(cri)
+#define cvu FN(cvu)
+#define cru FN(cru)
+#define cvl FN(cvl)
+#define crl FN(crl)
+#define cvul FN(cvul)
+#define crul FN(crul)
+#define cvf FN(cvf)
+#define crf FN(crf)
+#define cvd FN(cvd)
+#define crd FN(crd)
+#define cve FN(cve)
+#define cre FN(cre)
+#define gv FN(gv)
 int gi[8]; long gl[8]; float gf[8]; double gd[8]; long double ge[8]; int *gp[8]; S gs[8]; L gL[8]; struct B gb;
 int gc, gn, gna;
+/* conversion probes: operand VALUES (the class-boundary grids, filled by the driver for both twins) and result slots;
+ * gv selects the grid value */
+#define NV 48
+_Bool cvb[NV]; char cvc[NV]; signed char cvsc[NV]; unsigned char cvuc[NV]; short cvs[NV]; unsigned short cvus[NV]; int cvi[NV];
+unsigned cvu[NV]; long cvl[NV]; unsigned long cvul[NV]; float cvf[NV]; double cvd[NV]; long double cve[NV];
+_Bool crb; char crc; signed char crsc; unsigned char cruc; short crs; unsigned short crus; int cri; unsigned cru; long crl;
+unsigned long crul; float crf; double crd; long double cre;
+int gv;
 int ri; long rl; float rf; double rd; long double re; int *rp; S rs; L rL;
 void vp_probe(void);
 #ifdef __chibicc__
@@ -74,18 +110,19 @@ void *alloca(unsigned long);
 #define P vp_probe()
 
 void FN(reset)(void) {
-  gi[0] = 7; gi[1] = 5; gi[2] = 3; gi[3] = 2; gi[4] = 11; gi[5] = 13; gi[6] = 17; gi[7] = 19;
-  gl[0] = 70; gl[1] = 50; gl[2] = 30; gl[3] = 2; gl[4] = 110; gl[5] = 130; gl[6] = 0; gl[7] = 0;
-  gf[0] = 1.5f; gf[1] = 2.5f; gf[2] = 0.5f; gf[3] = 2.0f; gf[4] = 3.5f; gf[5] = 4.5f; gf[6] = 0; gf[7] = 0;
-  gd[0] = 1.5; gd[1] = 2.5; gd[2] = 0.5; gd[3] = 2.0; gd[4] = 3.5; gd[5] = 4.5; gd[6] = 0; gd[7] = 0;
-  ge[0] = 1.5L; ge[1] = 2.5L; ge[2] = 0.5L; ge[3] = 2.0L; ge[4] = 3.5L; ge[5] = 4.5L; ge[6] = 0; ge[7] = 0;
-  gp[0] = &gi[1]; gp[1] = &gi[2]; gp[2] = &gi[2]; gp[3] = &gi[3]; gp[4] = &gi[4]; gp[5] = &gi[5]; gp[6] = gi; gp[7] = gi;
+  gi[0] = 7; gi[1] = 5; gi[2] = 3; gi[3] = 2; gi[4] = 11; gi[5] = 13; gi[6] = 0; gi[7] = 19;
+  gl[0] = 70; gl[1] = 50; gl[2] = 30; gl[3] = 2; gl[4] = 110; gl[5] = 130; gl[6] = 0; gl[7] = 9;
+  gf[0] = 1.5f; gf[1] = 2.5f; gf[2] = 0.5f; gf[3] = 2.0f; gf[4] = 3.5f; gf[5] = 4.5f; gf[6] = 0; gf[7] = 1.25f;
+  gd[0] = 1.5; gd[1] = 2.5; gd[2] = 0.5; gd[3] = 2.0; gd[4] = 3.5; gd[5] = 4.5; gd[6] = 0; gd[7] = 1.25;
+  ge[0] = 1.5L; ge[1] = 2.5L; ge[2] = 0.5L; ge[3] = 2.0L; ge[4] = 3.5L; ge[5] = 4.5L; ge[6] = 0; ge[7] = 1.25L;
+  gp[0] = &gi[1]; gp[1] = &gi[2]; gp[2] = &gi[2]; gp[3] = &gi[3]; gp[4] = &gi[4]; gp[5] = &gi[5]; gp[6] = 0; gp[7] = &gi[1];
   for (int j = 0; j < 8; j++) {
     gs[j].a = 10 + j; gs[j].b = 20 + j; gs[j].c = 30 + j;
     for (int m = 0; m < 3; m++) gL[j].a[m] = 100 + 10 * j + m;
   }
   gb.x = 1; gb.y = 20; gb.z = 3;
   gna = 0;
+  crb = 0; crc = 0; crsc = 0; cruc = 0; crs = 0; crus = 0; cri = 0; cru = 0; crl = 0; crul = 0; crf = 0; crd = 0; cre = 0;
   ri = 0; rl = 0; rf = 0; rd = 0; re = 0; rp = gi; rs = gs[3]; rL = gL[3];
 }
 long FN(getbf)(int w) { return w == 0 ? gb.x : w == 1 ? gb.y : gb.z; }
